@@ -186,16 +186,19 @@ type Case struct {
 	DAG    bool   `json:"dag,omitempty"`
 	Spec   *NSpec `json:"spec,omitempty"`
 	Chunks []*V   `json:"chunks"`
-	Inject string `json:"inject,omitempty"` // "", dupkey, nokey, fmkey: deliberate out-of-domain construction
-	Front  string `json:"front,omitempty"`  // "" = Graph API, wf = Workflow (field mappings), chain = Chain
-	CB     bool   `json:"cb,omitempty"`     // every call carries a callback handler that drains the stream copies it receives
+	// a second input (same keys, other strings, another chunking) for the same compiled object
+	Chunks2 []*V   `json:"chunks2,omitempty"`
+	Inject  string `json:"inject,omitempty"` // "", dupkey, nokey, fmkey: deliberate out-of-domain construction
+	Front   string `json:"front,omitempty"`  // "" = Graph API, wf = Workflow (field mappings), chain = Chain
+	CB      bool   `json:"cb,omitempty"`     // every call carries a callback handler that drains the stream copies it receives
 }
 
 type Obs struct {
-	Input *V                   `json:"input,omitempty"`
-	Err   string               `json:"err,omitempty"` // harness-level problem (compile error ...)
-	P     [4]POut              `json:"p"`             // Invoke, Stream, Collect, Transform
-	Calls [4]map[string]string `json:"calls"`
+	Input  *V                   `json:"input,omitempty"`
+	Err    string               `json:"err,omitempty"` // harness-level problem (compile error ...)
+	P      [4]POut              `json:"p"`             // Invoke, Stream, Collect, Transform
+	Calls  [4]map[string]string `json:"calls"`
+	Second *Obs                 `json:"second,omitempty"` // the calls on the second input
 }
 
 // ---------------------------------------------------------------- Gallina printing
@@ -367,35 +370,32 @@ func callsJSON(calls map[int][]string) map[string]string {
 
 var parName = [4]string{"Invoke", "Stream", "Collect", "Transform"}
 
-func (engine) Run(ci any) lib.Result {
-	c := ci.(*Case)
-	res := lib.Result{}
-	obs := Obs{}
-	rec := &recorder{}
+// what the four calls on one input gave
+type inRun struct {
+	obs         Obs
+	oracle, sig string
+	allOK       bool
+	anyOK       bool
+	chunks      []any
+	x           any
+	harness     bool // the input itself was unusable
+}
 
-	chunks := make([]any, len(c.Chunks))
-	for i, v := range c.Chunks {
-		chunks[i] = v.toGo()
+func runInput(c *Case, r runner, vs []*V) inRun {
+	run := inRun{}
+	run.chunks = make([]any, len(vs))
+	for i, v := range vs {
+		run.chunks[i] = v.toGo()
 	}
-	x, err := concatAny(chunks)
+	x, err := concatAny(run.chunks)
 	if err != nil {
-		obs.Err = "input does not concatenate: " + err.Error()
-		res.Obs, res.Oracle, res.Sig = obs, obs.Err, "harness"
-		return res
+		run.obs.Err = "input does not concatenate: " + err.Error()
+		run.oracle, run.sig, run.harness = run.obs.Err, "harness", true
+		return run
 	}
-	obs.Input = fromGo(x)
-
-	var r runner
-	if c.Kind == "pack" {
-		r = pack(c.Spec, rec)
-	} else {
-		r, err = compile(c.Prog, c.Front, c.DAG, c.CB, rec)
-		if err != nil {
-			obs.Err = "compile: " + err.Error()
-			res.Obs, res.Oracle, res.Sig = obs, obs.Err, "harness-compile"
-			return res
-		}
-	}
+	run.x = x
+	run.obs.Input = fromGo(x)
+	obs := &run.obs
 	// the order in which a fan-in lists its sources follows Go's map iteration: a graph with a
 	// fan-in is run several times in every stream paradigm; the first run that does not agree
 	// with Invoke is the one that is kept
@@ -404,45 +404,151 @@ func (engine) Run(ci any) lib.Result {
 		reps = fanInReps
 	}
 	for par := 0; par < 4; par++ {
-		obs.P[par] = r.call(par, x, chunks)
+		obs.P[par] = r.call(par, x, run.chunks)
 		for k := 1; k < reps && par > 0 && sameOutcome(obs.P[0], obs.P[par]); k++ {
-			obs.P[par] = r.call(par, x, chunks)
+			obs.P[par] = r.call(par, x, run.chunks)
 		}
 		obs.Calls[par] = callsJSON(obs.P[par].calls)
 	}
-	res.Obs = obs
 
 	// ---- direct oracle
-	allOK, anyOK := true, false
+	run.allOK, run.anyOK = true, false
 	for par := 0; par < 4; par++ {
 		o := obs.P[par]
 		if o.Class == "panic" || o.Class == "hang" {
-			res.Oracle = fmt.Sprintf("%s: %s %s", parName[par], o.Class, o.Msg)
-			res.Sig = o.Class
+			run.oracle = fmt.Sprintf("%s: %s %s", parName[par], o.Class, o.Msg)
+			run.sig = o.Class
 		}
-		allOK = allOK && o.ok()
-		anyOK = anyOK || o.ok()
+		run.allOK = run.allOK && o.ok()
+		run.anyOK = run.anyOK || o.ok()
 	}
-	if res.Oracle == "" && anyOK && !allOK {
+	if run.oracle == "" && run.anyOK && !run.allOK {
 		var parts []string
 		for par := 0; par < 4; par++ {
 			parts = append(parts, parName[par]+"="+obs.P[par].Class)
 		}
-		res.Oracle = "a failure is reported in some paradigms only: " + strings.Join(parts, " ") + " | " + firstMsg(obs)
-		res.Sig = failSig(c, obs)
+		run.oracle = "a failure is reported in some paradigms only: " + strings.Join(parts, " ") + " | " + firstMsg(*obs)
+		run.sig = failSig(c, *obs)
 	}
-	if res.Oracle == "" && allOK {
+	if run.oracle == "" && run.allOK {
 		for par := 1; par < 4; par++ {
 			if !vEqual(obs.P[0].Val, obs.P[par].Val) {
-				res.Oracle = fmt.Sprintf("%s delivers %s, Invoke returns %s", parName[par], js(obs.P[par].Val), js(obs.P[0].Val))
-				res.Sig = "value-differs"
+				run.oracle = fmt.Sprintf("%s delivers %s, Invoke returns %s", parName[par], js(obs.P[par].Val), js(obs.P[0].Val))
+				run.sig = "value-differs"
 				break
 			}
 		}
 	}
+	return run
+}
+
+// what a call handed to the caller (and what the caller handed to the calls) must still read the
+// same after later calls on the same compiled object
+func stillSame(run inRun, vs []*V) string {
+	for i, c := range run.chunks {
+		if !vEqual(fromGo(c), vs[i]) {
+			return fmt.Sprintf("the caller's input chunk %d was modified by the calls: now %s, was %s", i, js(fromGo(c)), js(vs[i]))
+		}
+	}
+	for par := 0; par < 4; par++ {
+		o := run.obs.P[par]
+		if !o.ok() {
+			continue
+		}
+		if par == 0 || par == 2 {
+			if len(o.raw) == 1 && !vEqual(fromGo(o.raw[0]), o.Val) {
+				return fmt.Sprintf("the value %s returned changed after later calls on the same compiled object: now %s, was %s", parName[par], js(fromGo(o.raw[0])), js(o.Val))
+			}
+			continue
+		}
+		for i, c := range o.raw {
+			if i < len(o.Chunks) && !vEqual(fromGo(c), o.Chunks[i]) {
+				return fmt.Sprintf("chunk %d delivered by %s changed after later calls on the same compiled object: now %s, was %s", i, parName[par], js(fromGo(c)), js(o.Chunks[i]))
+			}
+		}
+	}
+	return ""
+}
+
+func progTerm(c *Case, run inRun, vs []*V, tags *[]string) string {
+	obs := run.obs
+	calls := "None"
+	if run.allOK {
+		calls = lib.CoqSome(lib.CoqPair(coqCalls(obs.P[0].calls), coqCalls(obs.P[1].calls)))
+		// the three stream-mode paradigms run the same natives
+		if !reflect.DeepEqual(obs.P[1].calls, obs.P[2].calls) || !reflect.DeepEqual(obs.P[1].calls, obs.P[3].calls) {
+			calls = lib.CoqSome(lib.CoqPair("[(999%N, 0%N)]", "[]")) // flagged as a mismatch
+		}
+	}
+	st := stats(c.Prog)
+	schunks := "None"
+	if run.allOK && st.pars == 0 && c.Inject == "" {
+		// no merge anywhere: the chunk boundaries of the output are determined
+		schunks = lib.CoqSome(lib.CoqPair(lib.CoqList(mapCoq(obs.P[1].Chunks)), lib.CoqList(mapCoq(obs.P[3].Chunks))))
+		if tags != nil {
+			*tags = append(*tags, "exactchunks:true")
+		}
+	}
+	return lib.CoqApp("CaseProg", c.Prog.coq(), lib.CoqList(mapCoq(vs)),
+		coqRobs(obs.P[0]), coqRobs(obs.P[1]), coqRobs(obs.P[2]), coqRobs(obs.P[3]), calls, schunks)
+}
+
+func (engine) Run(ci any) lib.Result {
+	c := ci.(*Case)
+	res := lib.Result{}
+	rec := &recorder{}
+
+	var r runner
+	if c.Kind == "pack" {
+		r = pack(c.Spec, rec)
+	} else {
+		var err error
+		r, err = compile(c.Prog, c.Front, c.DAG, c.CB, rec)
+		if err != nil {
+			obs := Obs{Err: "compile: " + err.Error()}
+			res.Obs, res.Oracle, res.Sig = obs, obs.Err, "harness-compile"
+			return res
+		}
+	}
+	run := runInput(c, r, c.Chunks)
+	if run.harness {
+		res.Obs, res.Oracle, res.Sig = run.obs, run.oracle, run.sig
+		return res
+	}
+	obs := run.obs
+	res.Oracle, res.Sig = run.oracle, run.sig
+	allOK, anyOK := run.allOK, run.anyOK
+	var run2 *inRun
+	if c.Kind == "prog" && len(c.Chunks2) > 0 {
+		b := runInput(c, r, c.Chunks2)
+		if b.harness {
+			res.Obs, res.Oracle, res.Sig = b.obs, b.oracle, b.sig
+			return res
+		}
+		run2 = &b
+		obs.Second = &b.obs
+		if res.Oracle == "" && b.oracle != "" {
+			res.Oracle, res.Sig = "second input on the same compiled object: "+b.oracle, b.sig
+		}
+		if res.Oracle == "" {
+			if why := stillSame(run, c.Chunks); why != "" {
+				res.Oracle, res.Sig = why, "changed-after-later-call"
+			} else if why := stillSame(b, c.Chunks2); why != "" {
+				res.Oracle, res.Sig = why, "changed-after-later-call"
+			}
+		}
+	} else if res.Oracle == "" {
+		if why := stillSame(run, c.Chunks); why != "" {
+			res.Oracle, res.Sig = why, "changed-after-later-call"
+		}
+	}
+	res.Obs = obs
 
 	// ---- model term
 	tags := []string{"kind:" + c.Kind, fmt.Sprintf("chunks:%d", len(c.Chunks))}
+	if run2 != nil {
+		tags = append(tags, "inputs:2")
+	}
 	nested, typed := caseNesting(c)
 	tags = append(tags, fmt.Sprintf("nested:%v", nested), fmt.Sprintf("typedmap:%v", typed))
 	cls := "fail"
@@ -463,39 +569,24 @@ func (engine) Run(ci any) lib.Result {
 	if c.Kind == "pack" {
 		sp := c.Spec
 		used := make([]string, 4)
-		okUsed := true
 		for par := 0; par < 4; par++ {
 			ls := obs.P[par].calls[sp.ID]
 			if len(ls) != 1 {
-				okUsed = false
 				used[par] = lib.CoqN(99)
 			} else {
 				used[par] = lib.CoqN(letterN[ls[0]])
 			}
 		}
-		_ = okUsed
 		res.CoqTerm = lib.CoqApp("CasePack", sp.coq(), lib.CoqList(mapCoq(c.Chunks)),
 			coqRobs(obs.P[0]), coqSobs(obs.P[1]), coqRobs(obs.P[2]), coqSobs(obs.P[3]), lib.CoqList(used))
 		tags = append(tags, "nat:"+natStr(sp.Nat), fmt.Sprintf("pol:%d", sp.Pol), fmt.Sprintf("fail:%d", sp.Fail), fmt.Sprintf("nkind:%d", sp.Kind), fmt.Sprintf("anyout:%v", sp.AnyOut))
 		res.Nontrivial = natCount(sp.Nat) < 4
 	} else {
-		calls := "None"
-		if allOK {
-			calls = lib.CoqSome(lib.CoqPair(coqCalls(obs.P[0].calls), coqCalls(obs.P[1].calls)))
-			// the three stream-mode paradigms run the same natives
-			if !reflect.DeepEqual(obs.P[1].calls, obs.P[2].calls) || !reflect.DeepEqual(obs.P[1].calls, obs.P[3].calls) {
-				calls = lib.CoqSome(lib.CoqPair("[(999%N, 0%N)]", "[]")) // flagged as a mismatch
-			}
-		}
 		st := stats(c.Prog)
-		schunks := "None"
-		if allOK && st.pars == 0 && c.Inject == "" {
-			// no merge anywhere: the chunk boundaries of the output are determined
-			schunks = lib.CoqSome(lib.CoqPair(lib.CoqList(mapCoq(obs.P[1].Chunks)), lib.CoqList(mapCoq(obs.P[3].Chunks))))
-			tags = append(tags, "exactchunks:true")
+		res.CoqTerm = progTerm(c, run, c.Chunks, &tags)
+		if run2 != nil {
+			res.CoqTerm = lib.CoqApp("CaseTwo", res.CoqTerm, progTerm(c, *run2, c.Chunks2, nil))
 		}
-		res.CoqTerm = lib.CoqApp("CaseProg", c.Prog.coq(), lib.CoqList(mapCoq(c.Chunks)),
-			coqRobs(obs.P[0]), coqRobs(obs.P[1]), coqRobs(obs.P[2]), coqRobs(obs.P[3]), calls, schunks)
 		front := c.Front
 		if front == "" {
 			front = "graph"
